@@ -215,4 +215,14 @@ func libSortSlice(g *FuncGen, c *ast.CallExpr, callee *types.Func, st *State) []
 	return nil
 }
 
-var libModels2 = map[string]libModel{}
+var libModels2 map[string]libModel
+
+func init() {
+	libModels2 = map[string]libModel{
+		"strings.HasPrefix": func(g *FuncGen, c *ast.CallExpr, callee *types.Func, st *State) []Val {
+			a := g.ev(c.Args[0], st)
+			b := g.ev(c.Args[1], st)
+			return []Val{{fmt.Sprintf("(hasPrefix %s %s)", a.T, b.T), types.Typ[types.Bool], "Bool"}}
+		},
+	}
+}
